@@ -24,7 +24,7 @@ use verif_harness::{Cfg, guarded, r#gen::Rng, out::Out, out::hex};
 
 #[derive(Debug, Clone, PartialEq)]
 enum K {
-    Transmit { display: bool, id: u64, f: u64, s: u64, v: u64, o: Option<Vec<u8>>, data: Vec<u8>, chunks: Vec<usize> },
+    Transmit { display: bool, id: u64, pid: u64, f: u64, s: u64, v: u64, o: Option<Vec<u8>>, data: Vec<u8>, chunks: Vec<usize> },
     Put { id: u64, pid: u64 },
     Delete { d: u8, id: u64, pid: u64 },
 }
@@ -148,6 +148,7 @@ fn finish(first: &Raw, chunks: &[Vec<u8>]) -> Result<K, String> {
     Ok(K::Transmit {
         display: a == b'T',
         id: first.num(b'i', 0)?,
+        pid: first.num(b'p', 0)?,
         f: first.num(b'f', 32)?,
         s: first.num(b's', 0)?,
         v: first.num(b'v', 0)?,
@@ -198,7 +199,7 @@ fn show_cmds(cmds: &[K]) -> String {
     };
     cmds.iter()
         .map(|c| match c {
-            K::Transmit { display, id, f, s, v, o, data, chunks } => {
+            K::Transmit { display, id, f, s, v, o, data, chunks, .. } => {
                 let o = match o {
                     None => "-".to_string(),
                     Some(v) if v.iter().all(|b| b.is_ascii_digit()) && v.len() < 30 => {
@@ -221,7 +222,7 @@ fn show_cmds(cmds: &[K]) -> String {
 
 /// how an image is made: parent surface `ph × pw` with pixel data `data` (row-major RGBA), optionally
 /// transposed, optionally cropped to rows `r0..r1`, cols `c0..c1` (of the possibly transposed surface);
-/// `via`: 0 = `Image::new(view_owned)`, 1 = `Image::from(owned).crop(..)`
+/// `via`: 0 = `Image::new(view_owned)`, 1 = `Image::from(owned).crop(..)`, 2 = `Image::new(view.transpose().transpose())`
 #[derive(Clone, Debug)]
 struct ImgSpec {
     ph: usize,
@@ -282,6 +283,12 @@ impl ImgSpec {
             RGBA::new(r, g, b, a)
         });
         match (self.transpose, self.crop, self.via) {
+            (false, None, 2) => Image::new(surf.transpose().transpose()),
+            (false, Some((r0, r1, c0, c1)), 2) => Image::new(surf.view_owned(r0..r1, c0..c1).transpose().transpose()),
+            (true, None, 2) => Image::new(surf.transpose().transpose().transpose()),
+            (true, Some((r0, r1, c0, c1)), 2) => {
+                Image::new(surf.transpose().view_owned(r0..r1, c0..c1).transpose().transpose())
+            }
             (false, None, 0) => Image::new(surf),
             (false, None, _) => Image::from(surf),
             (false, Some((r0, r1, c0, c1)), 0) => Image::new(surf.view_owned(r0..r1, c0..c1)),
@@ -300,6 +307,9 @@ enum EvSpec {
     /// terminal response echoing the ids of the `put` of an earlier draw event (`None`: made-up ids);
     /// with or without placement; error or OK
     Resp(Option<usize>, bool, bool),
+    /// error response for the image of an earlier draw event with a placement id this client never handed
+    /// out (0 or >= 2^32)
+    RespForeign(Option<usize>, u64),
     Other,
 }
 
@@ -310,6 +320,7 @@ impl EvSpec {
             EvSpec::Erase(k, Some((r, c))) => json!(["e", k, r, c]),
             EvSpec::Erase(k, None) => json!(["e", k]),
             EvSpec::Resp(j, p, e) => json!(["r", j.map(|j| j as i64).unwrap_or(-1), p, e]),
+            EvSpec::RespForeign(j, p) => json!(["rf", j.map(|j| j as i64).unwrap_or(-1), p.to_string()]),
             EvSpec::Other => json!(["x"]),
         }
     }
@@ -320,6 +331,7 @@ impl EvSpec {
             "d" => EvSpec::Draw(n(1)?, n(2)?, n(3)?),
             "e" if a.len() == 4 => EvSpec::Erase(n(1)?, Some((n(2)?, n(3)?))),
             "e" => EvSpec::Erase(n(1)?, None),
+            "rf" => EvSpec::RespForeign(a[1].as_i64().filter(|j| *j >= 0).map(|j| j as usize), a[2].as_str()?.parse().ok()?),
             "r" => EvSpec::Resp(a[1].as_i64().filter(|j| *j >= 0).map(|j| j as usize), a[2].as_bool()?, a[3].as_bool()?),
             _ => EvSpec::Other,
         })
@@ -374,7 +386,7 @@ fn content_of(img: &Image) -> (usize, usize, Vec<u8>) {
 
 #[derive(Clone)]
 struct Placed {
-    img: usize,
+    ct: (usize, usize, Vec<u8>),
     pos: (usize, usize),
     id: u64,
     pid: u64,
@@ -390,6 +402,38 @@ struct StepOut {
 
 struct Runner<'a> {
     out: &'a mut Out,
+    /// histories in which two different contents were given the same image id (inherent to 32-bit ids when
+    /// rare; a failure when frequent)
+    id_collisions: Vec<Value>,
+}
+
+/// effects of the commands of one event, whatever their spelling
+enum Fx {
+    Tx { id: u64, s: usize, v: usize, data: Vec<u8> },
+    Put { id: u64, pid: u64 },
+    Del { id: u64, pid: u64 },
+}
+
+/// zero-based target of the first `CSI row ; col H` of a byte stream
+fn cursor_target(bytes: &[u8]) -> Option<(usize, usize)> {
+    let start = bytes.windows(2).position(|w| w == b"\x1b[")? + 2;
+    let rest = &bytes[start..];
+    let n1 = rest.iter().take_while(|b| b.is_ascii_digit()).count();
+    if n1 == 0 || rest.get(n1) != Some(&b';') {
+        return None;
+    }
+    let rest2 = &rest[n1 + 1..];
+    let n2 = rest2.iter().take_while(|b| b.is_ascii_digit()).count();
+    if n2 == 0 || rest2.get(n2) != Some(&b'H') {
+        return None;
+    }
+    let row: usize = std::str::from_utf8(&rest[..n1]).ok()?.parse().ok()?;
+    let col: usize = std::str::from_utf8(&rest2[..n2]).ok()?.parse().ok()?;
+    Some((row.checked_sub(1)?, col.checked_sub(1)?))
+}
+
+fn in_domain(p: (usize, usize)) -> bool {
+    p.0 < 65536 && p.1 < 65536 && p != CORNER
 }
 
 const CORNER: (usize, usize) = (65535, 65535);
@@ -469,6 +513,12 @@ impl<'a> Runner<'a> {
                     };
                     guarded(|| handler.handle(&mut buf, &event).map(Some).map_err(|_| ())).and_then(|x| x)
                 }
+                EvSpec::RespForeign(j, placement) => {
+                    let (id, _) = j.and_then(|j| observed.get(j).cloned().flatten()).unwrap_or((777, 5));
+                    resp = Some((id, Some(*placement), true));
+                    let event = TerminalEvent::KittyImage { id, placement: Some(*placement), error: Some("ENOENT:gone".to_string()) };
+                    guarded(|| handler.handle(&mut buf, &event).map(Some).map_err(|_| ())).and_then(|x| x)
+                }
                 EvSpec::Other => {
                     guarded(|| handler.handle(&mut buf, &TerminalEvent::Wake).map(Some).map_err(|_| ())).and_then(|x| x)
                 }
@@ -505,7 +555,7 @@ impl<'a> Runner<'a> {
                 EvSpec::Draw(k, r, c) => req.push_str(&format!(" ev d {k} {r} {c}")),
                 EvSpec::Erase(k, Some((r, c))) => req.push_str(&format!(" ev e {k} {r} {c}")),
                 EvSpec::Erase(k, None) => req.push_str(&format!(" ev e {k} - -")),
-                EvSpec::Resp(..) => {
+                EvSpec::Resp(..) | EvSpec::RespForeign(..) => {
                     let (id, pl, err) = st.resp.unwrap();
                     req.push_str(&format!(
                         " ev r {id} {} {}",
@@ -540,7 +590,20 @@ impl<'a> Runner<'a> {
             inp["event_index"] = json!(k);
             out.fail(what, inp, expected, got);
         };
+        // the same pixel content must be recognised as the same image whatever its memory layout
+        for i in 0..contents.len() {
+            for j in 0..i {
+                if contents[i] == contents[j] && !contents[i].2.is_empty() && hashes[i] != hashes[j] {
+                    fail(self.out, "equal pixel content but different Surface::hash (the content would be transmitted twice)", 0,
+                         json!({"images": [j, i], "hash": hashes[j].to_string()}), json!(hashes[i].to_string()));
+                    ok = false;
+                }
+            }
+        }
         'events: for (k, (ev, st)) in hist.evs.iter().zip(steps.iter()).enumerate() {
+            if !ok {
+                break 'events;
+            }
             let cmds = match kitty(&st.bytes) {
                 Ok(c) => c,
                 Err(e) => {
@@ -549,21 +612,21 @@ impl<'a> Runner<'a> {
                     break 'events;
                 }
             };
-            if let EvSpec::Resp(..) = ev {
-                if let Some((id, _, true)) = st.resp {
-                    live.remove(&id);
-                }
+            // an error response for an image means the terminal does not hold it (any more)
+            if let Some((id, _, true)) = st.resp {
+                live.remove(&id);
             }
-            // rules for every command
+            // rules for every command, whatever its spelling; `a=T` = transmit + display
+            let mut fx: Vec<Fx> = Vec::new();
             for c in cmds.iter() {
                 match c {
-                    K::Transmit { display, id, f, s, v, o, data, chunks } => {
+                    K::Transmit { display, id, pid, f, s, v, o, data, chunks } => {
                         if *id == 0 {
                             fail(self.out, "image id 0 (= unspecified) used for a transmission", k, json!("non-zero id"), json!(0));
                             ok = false;
                         }
-                        if *display || *f != 32 || o.is_some() {
-                            fail(self.out, "transmission is not plain RGBA (a=t, f=32, no compression)", k, json!("a=t,f=32"), json!(show_cmds(std::slice::from_ref(c)).chars().take(80).collect::<String>()));
+                        if *f != 32 || o.is_some() {
+                            fail(self.out, "transmission is not plain RGBA (f=32, no compression)", k, json!("f=32"), json!(show_cmds(std::slice::from_ref(c)).chars().take(80).collect::<String>()));
                             ok = false;
                         }
                         if chunks.iter().any(|n| *n > 4096) || chunks.iter().any(|n| n % 4 != 0) {
@@ -574,13 +637,35 @@ impl<'a> Runner<'a> {
                             fail(self.out, "payload length differs from 4*s*v", k, json!(4 * s * v), json!(data.len()));
                             ok = false;
                         }
+                        fx.push(Fx::Tx { id: *id, s: *s as usize, v: *v as usize, data: data.clone() });
+                        if *display {
+                            fx.push(Fx::Put { id: *id, pid: *pid });
+                        }
+                    }
+                    K::Put { id, pid } => fx.push(Fx::Put { id: *id, pid: *pid }),
+                    K::Delete { d, id, pid } => {
+                        if *d != b'i' || *id == 0 {
+                            fail(self.out, "deletion is not by non-zero image id with d=i", k, json!("d=i, i != 0"), json!([*d as u64, *id]));
+                            ok = false;
+                        }
+                        fx.push(Fx::Del { id: *id, pid: *pid });
+                    }
+                }
+            }
+            for f in fx.iter() {
+                match f {
+                    Fx::Tx { id, s, v, data } => {
                         if live.contains_key(id) {
                             fail(self.out, "pixel data transmitted again while the terminal still holds it", k, json!("at most one transmission per image between error responses"), json!(id));
                             ok = false;
+                        } else if let Some((other, _)) = live.iter().find(|(_, c)| (c.0, c.1) == (*s, *v) && c.2 == *data) {
+                            fail(self.out, "pixel data of one content transmitted again under another id while the terminal still holds it", k,
+                                 json!("at most one transmission per image content"), json!({"held_as": other, "sent_as": id}));
+                            ok = false;
                         }
-                        live.insert(*id, (*s as usize, *v as usize, data.clone()));
+                        live.insert(*id, (*s, *v, data.clone()));
                     }
-                    K::Put { id, pid } => {
+                    Fx::Put { id, pid } => {
                         if *id == 0 || *pid == 0 {
                             fail(self.out, "image id or placement id 0 (= unspecified) in a placement", k, json!("non-zero ids"), json!([id, pid]));
                             ok = false;
@@ -590,17 +675,20 @@ impl<'a> Runner<'a> {
                             ok = false;
                         }
                     }
-                    K::Delete { d, id, .. } => {
-                        if *d != b'i' || *id == 0 {
-                            fail(self.out, "deletion is not by non-zero image id with d=i", k, json!("d=i, i != 0"), json!([*d as u64, *id]));
-                            ok = false;
-                        }
-                    }
+                    Fx::Del { .. } => {}
                 }
             }
             if !ok {
                 break 'events;
             }
+            // (transmission of this id,) one placement
+            let draw_shape = |fx: &[Fx]| -> Option<(u64, u64)> {
+                match fx {
+                    [Fx::Put { id, pid }] => Some((*id, *pid)),
+                    [Fx::Tx { id: t, .. }, Fx::Put { id, pid }] if t == id => Some((*id, *pid)),
+                    _ => None,
+                }
+            };
             match ev {
                 EvSpec::Draw(ki, row, col) => {
                     let ct = &contents[*ki];
@@ -608,65 +696,55 @@ impl<'a> Runner<'a> {
                         if !cmds.is_empty() {
                             fail(self.out, "empty image transmitted or placed", k, json!("no command"), json!(show_cmds(&cmds)));
                             ok = false;
-                            break 'events;
                         }
                         continue;
                     }
-                    let shape_ok = match cmds.as_slice() {
-                        [K::Put { .. }] => true,
-                        [K::Transmit { id: t, .. }, K::Put { id, .. }] => t == id,
-                        _ => false,
-                    };
-                    if !shape_ok {
+                    let Some((id, pid)) = draw_shape(&fx) else {
                         fail(self.out, "draw is not (transmit of this image,) one placement", k, json!("[T] P"), json!(cmds.len()));
                         ok = false;
                         break 'events;
-                    }
-                    if let Some(K::Put { id, pid }) = cmds.last() {
-                        let held = live.get(id).unwrap();
-                        if (held.0, held.1) != (ct.0, ct.1) || held.2 != ct.2 {
-                            // either wrong pixels were sent now, or another content owns this id
-                            // excused only when the 64-bit content hashes of the two images really agree
-                            // modulo 2^32-1 (an id of 32 bits cannot separate them): the property's assumption
-                            let other_owner = placed.iter().any(|p| {
-                                p.id == *id && contents[p.img] != *ct && hashes[p.img] % 4294967295 == hashes[*ki] % 4294967295
-                            });
-                            if other_owner && cmds.len() == 1 {
-                                id_collision = true; // hash collision mod 2^32-1: outside the property's assumption
-                                self.out.hist("note:image-id-collision-skipped");
-                                break 'events;
-                            }
-                            fail(self.out, "transmitted payload / declared size differs from the image's pixels", k,
-                                 json!({"s": ct.0, "v": ct.1, "data": hex(&ct.2[..ct.2.len().min(64)])}),
-                                 json!({"s": held.0, "v": held.1, "data": hex(&held.2[..held.2.len().min(64)])}));
-                            ok = false;
+                    };
+                    let held = live.get(&id).unwrap();
+                    if (held.0, held.1) != (ct.0, ct.1) || held.2 != ct.2 {
+                        if fx.len() == 1 {
+                            // no data sent now: another content owns this id. With 32-bit ids this cannot be
+                            // excluded; it is excused while it stays as rare as 32 bits explain (see `main`)
+                            id_collision = true;
+                            self.out.hist("note:image-id-collision");
+                            let mut inp = input.clone();
+                            inp["event_index"] = json!(k);
+                            self.id_collisions.push(inp);
                             break 'events;
                         }
-                        placed.push(Placed { img: *ki, pos: (*row, *col), id: *id, pid: *pid });
+                        fail(self.out, "transmitted payload / declared size differs from the image's pixels", k,
+                             json!({"s": ct.0, "v": ct.1, "data": hex(&ct.2[..ct.2.len().min(64)])}),
+                             json!({"s": held.0, "v": held.1, "data": hex(&held.2[..held.2.len().min(64)])}));
+                        ok = false;
+                        break 'events;
                     }
+                    placed.push(Placed { ct: ct.clone(), pos: (*row, *col), id, pid });
                 }
                 EvSpec::Erase(ki, pos) => {
                     let ct = &contents[*ki];
-                    let (id, pid) = match cmds.as_slice() {
-                        [K::Delete { id, pid, .. }] => (*id, *pid),
-                        _ => {
-                            fail(self.out, "erase is not exactly one deletion", k, json!("one a=d"), json!(cmds.len()));
-                            ok = false;
-                            break 'events;
-                        }
-                    };
-                    if pos.is_some() && pid == 0 {
+                    let dels: Vec<(u64, u64)> = fx.iter().filter_map(|f| match f { Fx::Del { id, pid } => Some((*id, *pid)), _ => None }).collect();
+                    if dels.is_empty() || dels.len() != fx.len() {
+                        fail(self.out, "erase is not made of deletions only", k, json!("a=d"), json!(cmds.len()));
+                        ok = false;
+                        break 'events;
+                    }
+                    if pos.is_some() && dels.iter().any(|d| d.1 == 0) {
                         fail(self.out, "erase at a position carries placement id 0 (deletes all placements of the image)", k, json!("p != 0"), json!(0));
                         ok = false;
                         break 'events;
                     }
                     // protocol: d=i deletes placements of image i; with p only that placement
+                    let hit = |p: &Placed| dels.iter().any(|(id, pid)| p.id == *id && (*pid == 0 || p.pid == *pid));
                     for p in placed.iter() {
-                        let deleted = p.id == id && (pid == 0 || p.pid == pid);
-                        let meant = contents[p.img] == *ct && pos.map(|q| q == p.pos).unwrap_or(true);
+                        let deleted = hit(p);
+                        let meant = p.ct == *ct && pos.map(|q| q == p.pos).unwrap_or(true);
                         if deleted != meant {
                             let corner = *pos == Some(CORNER) || p.pos == CORNER;
-                            if corner && contents[p.img] == *ct {
+                            if corner && p.ct == *ct {
                                 // the recorded pigeonhole collision (0,0) / (65535,65535)
                                 self.out.fail("C11-corner: placement id collision", json!({"pos": "65535,65535"}),
                                     json!("erase addresses only the placement drawn at that position"),
@@ -674,15 +752,45 @@ impl<'a> Runner<'a> {
                             } else {
                                 fail(self.out, "erase does not address exactly the placement created by drawing the image there", k,
                                      json!({"image": ki, "pos": format!("{:?}", pos)}),
-                                     json!({"addresses": deleted, "placement_of_image": p.img, "at": format!("{:?}", p.pos), "i": id, "p": pid}));
+                                     json!({"addresses": deleted, "placement_at": format!("{:?}", p.pos), "i": p.id, "p": p.pid, "deletions": dels}));
                                 ok = false;
                                 break 'events;
                             }
                         }
                     }
-                    placed.retain(|p| !(p.id == id && (pid == 0 || p.pid == pid)));
+                    placed.retain(|p| !hit(p));
                 }
-                EvSpec::Resp(..) | EvSpec::Other => {}
+                EvSpec::Resp(..) | EvSpec::RespForeign(..) => {
+                    // a re-draw answering an error response: it must restore the placement the response names
+                    // (same image, same placement id, where that placement was made) and is tracked from now on
+                    if let (Some((rid, Some(rp), true)), false) = (st.resp, fx.is_empty()) {
+                        let Some((id, pid)) = draw_shape(&fx) else {
+                            fail(self.out, "re-draw after an error response is not (transmit,) one placement", k, json!("[T] P"), json!(cmds.len()));
+                            ok = false;
+                            break 'events;
+                        };
+                        let target = cursor_target(&st.bytes);
+                        if id != rid {
+                            fail(self.out, "re-draw after an error response places another image than the response names", k, json!(rid), json!(id));
+                            ok = false;
+                            break 'events;
+                        }
+                        if let Some(q) = placed.iter().find(|q| q.id == rid && q.pid == rp) {
+                            if target != Some(q.pos) || pid != rp {
+                                fail(self.out, "re-draw after an error response does not restore the placement the response names (position / placement id)", k,
+                                     json!({"pos": format!("{:?}", q.pos), "p": rp}), json!({"cursor": format!("{:?}", target), "p": pid}));
+                                ok = false;
+                                break 'events;
+                            }
+                        }
+                        if let (Some(t), Some(ct)) = (target, live.get(&id)) {
+                            if in_domain(t) {
+                                placed.push(Placed { ct: ct.clone(), pos: t, id, pid });
+                            }
+                        }
+                    }
+                }
+                EvSpec::Other => {}
             }
         }
 
@@ -701,14 +809,18 @@ impl<'a> Runner<'a> {
                         let (r, c) = pos.map(|(r, c)| (r.to_string(), c.to_string())).unwrap_or(("-".into(), "-".into()));
                         req.push_str(&format!(" E {} {} {} {r} {c} {b}", ct.0, ct.1, hex(&ct.2)));
                     }
-                    EvSpec::Resp(..) => match st.resp {
-                        Some((id, _, true)) => req.push_str(&format!(" R {id} {b}")),
+                    EvSpec::Resp(..) | EvSpec::RespForeign(..) => match st.resp {
+                        Some((id, pl, true)) => {
+                            req.push_str(&format!(" R {id} {} {b}", pl.map(|p| p.to_string()).unwrap_or("-".into())))
+                        }
                         _ => req.push_str(&format!(" X {b}")),
                     },
                     EvSpec::Other => req.push_str(&format!(" X {b}")),
                 }
             }
-            self.out.oracle(&req, "ok");
+            // the Lean monitor is stricter than the property in spelling (separate a=t / a=p, exactly one
+            // deletion per erase): a rejection is reported as a broken tie, the Rust oracle above states the property
+            self.out.corr(&req, "ok");
             let all: Vec<u8> = steps.iter().flat_map(|s| s.bytes.iter().cloned()).collect();
             if let Ok(cmds) = kitty(&all) {
                 self.out.oracle(&format!("c11 kitty {}", hex(&all)), &show_cmds(&cmds));
@@ -720,7 +832,7 @@ impl<'a> Runner<'a> {
         let nontrivial = hist.evs.iter().any(|e| matches!(e, EvSpec::Draw(..))) && contents.iter().any(|c| !c.2.is_empty());
         let key = format!("{}|{}", req_key(&steps), hist.evs.len());
         self.out.case(&key, nontrivial);
-        self.out.hist(&format!("events:{}", match hist.evs.len() { 0..=2 => "1-2", 3..=6 => "3-6", _ => "7+" }));
+        self.out.hist(&format!("events:{}", match hist.evs.len() { 0..=2 => "1-2", 3..=6 => "3-6", 7..=49 => "7-49", _ => "50+" }));
         if big {
             self.out.hist("has-multi-chunk-image");
         }
@@ -729,6 +841,18 @@ impl<'a> Runner<'a> {
         }
         if contents.iter().any(|c| c.2.is_empty()) {
             self.out.hist("has-empty-image");
+        }
+        if hist.evs.iter().any(|e| matches!(e, EvSpec::RespForeign(..))) {
+            self.out.hist("has-foreign-placement-response");
+        }
+        if hist.imgs.len() >= 10 {
+            self.out.hist("has-10+-images");
+        }
+        if contents.iter().any(|c| c.2.len() > 9216) {
+            self.out.hist("has-4+-chunk-image");
+        }
+        if (0..contents.len()).any(|i| (0..i).any(|j| contents[i] == contents[j] && !contents[i].2.is_empty() && (hist.imgs[i].ph, hist.imgs[i].pw, hist.imgs[i].transpose, hist.imgs[i].crop) != (hist.imgs[j].ph, hist.imgs[j].pw, hist.imgs[j].transpose, hist.imgs[j].crop))) {
+            self.out.hist("has-equal-content-different-layout");
         }
         if hist.evs.iter().any(|e| matches!(e, EvSpec::Resp(_, _, true))) {
             self.out.hist("has-error-response");
@@ -808,6 +932,151 @@ fn gen_image(rng: &mut Rng, max: usize) -> ImgSpec {
     ImgSpec { ph, pw, data, transpose, crop, via: rng.below(2) as u8 }
 }
 
+/// another image with exactly the pixels of `spec` but a different memory layout / construction
+fn twin_of(rng: &mut Rng, spec: &ImgSpec) -> ImgSpec {
+    let (w, h, px) = spec.intended();
+    if w == 0 || h == 0 {
+        let mut t = spec.clone();
+        t.via = (t.via + 1) % 3;
+        return t;
+    }
+    match rng.below(4) {
+        // an owned copy of exactly these pixels
+        0 => ImgSpec { ph: h, pw: w, data: px, transpose: false, crop: None, via: rng.below(2) as u8 },
+        // a window of a larger parent
+        1 => {
+            let (a, b, c, d) = (rng.below(3) as usize, rng.below(3) as usize, rng.below(3) as usize, 1 + rng.below(3) as usize);
+            let (ph, pw) = (h + a + b, w + c + d);
+            let mut data = gen_pixels(rng, ph * pw);
+            for r in 0..h {
+                for col in 0..w {
+                    let o = ((a + r) * pw + c + col) * 4;
+                    data[o..o + 4].copy_from_slice(&px[(r * w + col) * 4..(r * w + col) * 4 + 4]);
+                }
+            }
+            ImgSpec { ph, pw, data, transpose: false, crop: Some((a, a + h, c, c + w)), via: rng.below(2) as u8 }
+        }
+        // stored transposed, viewed through `transpose`
+        2 => {
+            let mut data = vec![0u8; px.len()];
+            for r in 0..h {
+                for col in 0..w {
+                    let o = (col * h + r) * 4;
+                    data[o..o + 4].copy_from_slice(&px[(r * w + col) * 4..(r * w + col) * 4 + 4]);
+                }
+            }
+            ImgSpec { ph: w, pw: h, data, transpose: true, crop: None, via: 0 }
+        }
+        // the owned copy transposed twice
+        _ => ImgSpec { ph: h, pw: w, data: px, transpose: false, crop: None, via: 2 },
+    }
+}
+
+/// several layouts of one content (plus one unrelated image) drawn and erased on one handler
+fn gen_twin_history(rng: &mut Rng) -> History {
+    let base = loop {
+        let g = gen_image(rng, 12);
+        let (w, h, _) = g.intended();
+        if w > 0 && h > 0 {
+            break g;
+        }
+    };
+    let n = 2 + rng.below(3) as usize;
+    let mut imgs = vec![base.clone()];
+    for _ in 1..n {
+        imgs.push(twin_of(rng, &base));
+    }
+    imgs.push(gen_image(rng, 8));
+    let local = [(0usize, 0usize), (2, 5), (5, 2), (9, 9)];
+    let mut evs = Vec::new();
+    let mut draws = Vec::new();
+    for _ in 0..(3 + rng.below(8)) {
+        let k = rng.below(imgs.len() as u64) as usize;
+        let p = *rng.pick(&local);
+        match rng.below(8) {
+            0..=4 => {
+                draws.push(evs.len());
+                evs.push(EvSpec::Draw(k, p.0, p.1));
+            }
+            5..=6 => evs.push(EvSpec::Erase(k, if rng.chance(1, 4) { None } else { Some(p) })),
+            _ => {
+                let j = if draws.is_empty() { None } else { Some(*rng.pick(&draws)) };
+                evs.push(EvSpec::Resp(j, rng.chance(1, 2), true));
+            }
+        }
+    }
+    History { quiet: rng.chance(1, 4), imgs, evs }
+}
+
+/// many tiny images and many events on one handler (growth of the transmitted set)
+fn gen_big_history(rng: &mut Rng) -> History {
+    let nimg = 10 + rng.below(41) as usize;
+    let imgs: Vec<ImgSpec> = (0..nimg)
+        .map(|i| {
+            let (ph, pw) = (1 + rng.below(3) as usize, 1 + rng.below(3) as usize);
+            let mut data = gen_pixels(rng, ph * pw);
+            data[0] = i as u8; // keep the contents apart
+            data[1] = (i >> 8) as u8 ^ 0x5a;
+            ImgSpec { ph, pw, data, transpose: rng.chance(1, 6), crop: None, via: rng.below(3) as u8 }
+        })
+        .collect();
+    let pool: Vec<(usize, usize)> = (0..8).map(|i| (i * 3 % 7, i * 5 % 11)).collect();
+    let nev = 50 + rng.below(80) as usize;
+    let mut evs = Vec::new();
+    let mut draws = Vec::new();
+    for _ in 0..nev {
+        let k = rng.below(nimg as u64) as usize;
+        let p = *rng.pick(&pool);
+        match rng.below(20) {
+            0..=12 => {
+                draws.push(evs.len());
+                evs.push(EvSpec::Draw(k, p.0, p.1));
+            }
+            13..=15 => evs.push(EvSpec::Erase(k, if rng.chance(1, 6) { None } else { Some(p) })),
+            16..=17 => {
+                let j = if draws.is_empty() { None } else { Some(*rng.pick(&draws)) };
+                evs.push(EvSpec::Resp(j, rng.chance(3, 4), rng.chance(3, 4)));
+            }
+            18 => {
+                let j = if draws.is_empty() { None } else { Some(*rng.pick(&draws)) };
+                evs.push(EvSpec::RespForeign(j, foreign_placement(rng)));
+            }
+            _ => evs.push(EvSpec::Other),
+        }
+    }
+    History { quiet: rng.chance(1, 4), imgs, evs }
+}
+
+fn foreign_placement(rng: &mut Rng) -> u64 {
+    match rng.below(5) {
+        0 => 0,
+        1 => 1 << 32,
+        2 => (1 << 32) + rng.below(1 << 20),
+        3 => u64::MAX - rng.below(3),
+        _ => (1u64 << 32).wrapping_add(rng.next() >> 8),
+    }
+}
+
+/// an image whose payload needs four or more chunks (more than 2304 pixels), thin or square
+fn gen_many_chunk_history(rng: &mut Rng) -> History {
+    let (ph, pw) = match rng.below(4) {
+        0 => (1 + rng.below(3) as usize, 2400 + rng.below(1200) as usize),
+        1 => (2400 + rng.below(1200) as usize, 1 + rng.below(2) as usize),
+        _ => (49 + rng.below(16) as usize, 49 + rng.below(16) as usize),
+    };
+    let img = ImgSpec { ph, pw, data: gen_pixels(rng, ph * pw), transpose: rng.chance(1, 4), crop: None, via: rng.below(3) as u8 };
+    let small = gen_image(rng, 6);
+    let evs = vec![
+        EvSpec::Draw(0, 2, 5),
+        EvSpec::Draw(1, 1, 1),
+        EvSpec::Draw(0, 5, 2),
+        EvSpec::Resp(Some(0), rng.chance(1, 2), true),
+        EvSpec::Draw(0, 2, 5),
+        EvSpec::Erase(0, Some((5, 2))),
+    ];
+    History { quiet: false, imgs: vec![img, small], evs }
+}
+
 const POS_POOL: [(usize, usize); 9] =
     [(0, 0), (0, 65535), (65535, 0), (3, 7), (7, 3), (65534, 65535), (65535, 65534), (1, 0), (0, 1)];
 
@@ -839,9 +1108,7 @@ fn gen_history(rng: &mut Rng, max: usize) -> History {
     }
     if nimg > 1 && rng.chance(1, 5) {
         // same pixels through a different construction: same content, must share the transmission
-        let mut twin = imgs[0].clone();
-        twin.via = 1 - twin.via;
-        imgs[1] = twin;
+        imgs[1] = twin_of(rng, &imgs[0].clone());
     }
     // a few positions that recur inside this history (so that erase meets its draw, and (r,c)/(c,r) both occur)
     let a = (rng.below(65536) as usize, rng.below(65536) as usize);
@@ -865,7 +1132,11 @@ fn gen_history(rng: &mut Rng, max: usize) -> History {
             }
             7..=8 => {
                 let j = if draws.is_empty() || rng.chance(1, 8) { None } else { Some(*rng.pick(&draws)) };
-                EvSpec::Resp(j, rng.chance(3, 4), rng.chance(3, 4))
+                if rng.chance(1, 8) {
+                    EvSpec::RespForeign(j, foreign_placement(rng))
+                } else {
+                    EvSpec::Resp(j, rng.chance(3, 4), rng.chance(3, 4))
+                }
             }
             _ => EvSpec::Other,
         };
@@ -929,6 +1200,44 @@ fn corpus() -> Vec<History> {
     v.push(History { quiet: false, imgs: vec![gradient(3, 3), gradient(2, 2)], evs: vec![
         d(0, 1, 1), d(1, 2, 2), EvSpec::Resp(Some(0), false, true), d(0, 1, 1), EvSpec::Resp(Some(1), true, false), d(1, 2, 2),
         EvSpec::Resp(None, true, true), EvSpec::Resp(Some(1), true, true), d(1, 3, 3), EvSpec::Other] });
+    // one content in four layouts (owned, window of a larger parent, stored transposed, transposed twice):
+    // one transmission, shared id, erase of one layout addresses the placement made through another
+    let owned = gradient(3, 2);
+    let mut window = ImgSpec { ph: 5, pw: 4, data: vec![7u8; 5 * 4 * 4], transpose: false, crop: Some((1, 4, 1, 3)), via: 0 };
+    let mut stored_t = ImgSpec { ph: 2, pw: 3, data: vec![0u8; 24], transpose: true, crop: None, via: 0 };
+    for r in 0..3 {
+        for c in 0..2 {
+            let px = owned.parent_px(r, c);
+            let o = ((1 + r) * 4 + 1 + c) * 4;
+            window.data[o..o + 4].copy_from_slice(&px);
+            let o = (c * 3 + r) * 4;
+            stored_t.data[o..o + 4].copy_from_slice(&px);
+        }
+    }
+    let mut twice = owned.clone();
+    twice.via = 2;
+    let mut window1 = window.clone();
+    window1.via = 1;
+    v.push(History { quiet: false, imgs: vec![owned, window, stored_t, twice, window1], evs: vec![
+        d(0, 1, 1), d(1, 2, 2), d(2, 3, 3), d(3, 4, 4), d(4, 5, 5), e(3, 1, 1), e(0, 2, 2), EvSpec::Erase(2, None)] });
+    // a re-draw after an error response restores the placement where it was made (row != col), and an erase
+    // afterwards addresses it; foreign placement ids (0, 2^32, 2^32+5, u64::MAX) in error responses
+    v.push(History { quiet: false, imgs: vec![gradient(2, 2), gradient(1, 3)], evs: vec![
+        d(0, 2, 5), d(1, 7, 3), EvSpec::Resp(Some(0), true, true), e(0, 5, 2), e(0, 2, 5), d(0, 2, 5),
+        EvSpec::Resp(Some(1), true, true), EvSpec::Erase(1, None), d(1, 0, 65535), EvSpec::Resp(Some(8), true, true), e(1, 0, 65535)] });
+    v.push(History { quiet: true, imgs: vec![gradient(2, 2), gradient(1, 3)], evs: vec![
+        d(0, 2, 5), EvSpec::RespForeign(Some(0), 0), d(0, 2, 5), EvSpec::RespForeign(Some(0), 1 << 32), d(1, 1, 1),
+        EvSpec::RespForeign(Some(4), (1 << 32) + 5), e(1, 1, 1), EvSpec::RespForeign(Some(0), u64::MAX), d(0, 2, 5), e(0, 2, 5)] });
+    // four and more chunks: 50x50 = 10000 bytes -> 13336 characters; a thin 1x2500 strip; 64x64 = 6 chunks
+    for (ph, pw) in [(50, 50), (1, 2500), (64, 64)] {
+        v.push(History { quiet: false, imgs: vec![gradient(ph, pw)], evs: vec![d(0, 2, 5), EvSpec::Resp(Some(0), true, true), e(0, 2, 5)] });
+    }
+    // twenty images, all drawn, then all drawn again: nothing may be transmitted a second time
+    let many: Vec<ImgSpec> = (0..20).map(|i| solid(1, 2, [i as u8, 1, 2, 3])).collect();
+    let mut evs: Vec<EvSpec> = (0..20).map(|i| d(i, i % 5, i % 3)).collect();
+    evs.extend((0..20).map(|i| d(i, i % 3, i % 5)));
+    evs.extend((0..20).map(|i| e(i, i % 5, i % 3)));
+    v.push(History { quiet: false, imgs: many, evs });
     v
 }
 
@@ -1017,7 +1326,7 @@ fn main() {
 
     if let Some(rep) = cfg.replay.as_ref() {
         let input = &rep["failure"]["input"];
-        let mut run = Runner { out: &mut out };
+        let mut run = Runner { out: &mut out, id_collisions: Vec::new() };
         if let Some(h) = input.get("history").and_then(History::from_json) {
             run.history(&h, true);
         } else if input.get("pos").is_some() {
@@ -1033,7 +1342,7 @@ fn main() {
 
     let mut rng = Rng::new(cfg.seed);
     {
-        let mut run = Runner { out: &mut out };
+        let mut run = Runner { out: &mut out, id_collisions: Vec::new() };
         for h in corpus() {
             run.history(&h, true);
         }
@@ -1041,7 +1350,15 @@ fn main() {
         let n = if cfg.thorough { 60_000 } else { 4_000 };
         for i in 0..n {
             let max = if i % 4 == 0 { 40 } else { 12 };
-            let h = gen_history(&mut rng, max);
+            let h = if i % 10 == 1 {
+                gen_twin_history(&mut rng)
+            } else if i % 40 == 7 {
+                gen_big_history(&mut rng)
+            } else if cfg.thorough && i % 200 == 13 {
+                gen_many_chunk_history(&mut rng)
+            } else {
+                gen_history(&mut rng, max)
+            };
             run.history(&h, true);
             if i % 211 == 0 {
                 let s = json!({"images": h.imgs.iter().map(|i| format!("{}x{}{}{}", i.ph, i.pw, if i.transpose { " transposed" } else { "" }, i.crop.map(|c| format!(" crop {:?}", c)).unwrap_or_default())).collect::<Vec<_>>(),
@@ -1049,7 +1366,16 @@ fn main() {
                 run.out.sample(s);
             }
         }
+        // different contents under one image id: inherent to 32-bit ids when it happens once in a blue moon
+        // (64-bit content hashes folded to 32 bits), a defect of the id scheme when it is frequent
+        let n_coll = run.id_collisions.len();
+        if n_coll > 2 {
+            let first = run.id_collisions[0].clone();
+            run.out.fail("different image contents share an image id far more often than 32-bit ids explain", first,
+                json!("at most a couple of collisions per run"), json!(n_coll));
+        }
+        run.out.extra("image_id_collisions_excused", json!(n_coll.min(2)));
     }
     id_zero_search(&mut out, cfg.thorough);
-    out.finish("histories of draw / erase / terminal-response / other events on one KittyImageHandler over 1-3 images (0x0 .. 40x40, random / constant / gradient pixels, plain, cropped, transposed, transposed+cropped, built by Image::new(view) or Image::from(..).crop(..)); positions from a recurring pool incl. (0,0), (0,65535), (65535,0), swapped pairs, random below 65536; non-trivial = at least one draw of a non-empty image; distinct by the bytes the implementation wrote; plus the corner case (65535,65535) and a search over 1x1 images for image id 0");
+    out.finish("histories of draw / erase / terminal-response (own, made-up and foreign placement ids >= 2^32 or 0) / other events on one KittyImageHandler; one history in 10 draws 2-4 different memory layouts of one pixel content (owned copy, window of a larger parent, stored transposed, transposed twice), one in 40 has 10-50 tiny images and 50-130 events, thorough: one in 200 has an image of 4+ chunks (thin 1-3 x 2400-3600 or 49-64 squared); the rest over 1-3 images (0x0 .. 40x40, random / constant / gradient pixels, plain, cropped, transposed, transposed+cropped, built by Image::new(view) or Image::from(..).crop(..)); positions from a recurring pool incl. (0,0), (0,65535), (65535,0), swapped pairs, random below 65536; non-trivial = at least one draw of a non-empty image; distinct by the bytes the implementation wrote; plus the corner case (65535,65535) and a search over 1x1 images for image id 0");
 }
